@@ -158,12 +158,18 @@ def _cfg(draw, tier, with_file=None):
             filename = "res_{%s}" % fixed_params[0][0]
         ext = draw(st.sampled_from(["", "", ".json"]))
     idspace = 2 * nvar * rep_max + 2
+    # (only with something unpacked: without, the library hands the runner's
+    # own parameter object to the iteration - there is no per-combination
+    # copy to speak of)
+    mutable_fixed = (not with_file) and bool(unpacked) and \
+        draw(st.integers(0, 3)) == 0
     return dict(idspace=idspace, unpacked=unpacked, container=container,
                 fixed=fixed_params,
                 rep_max=rep_max, stop=stop, skips=skips, filename=filename,
                 ext=ext, delete_partial=draw(st.booleans()),
                 clock=draw(st.lists(st.sampled_from([0, 0, 100, 301]),
-                                    min_size=1, max_size=4)))
+                                    min_size=1, max_size=4)),
+                mutable_fixed=mutable_fixed)
 
 
 @st.composite
